@@ -23,9 +23,9 @@ def run(tier: str, keep: bool = False) -> int:
     r.model("canonK2", fam2, K=2, faults=FAULTS, invariants=inv, properties=["Completes"], fair=True)
     r.model("freeK2", "FamAck(3, {2})", K=2, faults=FAULTS + ["delay"], pacing="free", invariants=inv, timeout=1500)
     # the two entities' positive ACK intervals differ by more than the other side's limit (the receiver's Finished timer runs
-    # 4x slower than the sender's EOF timer and vice versa): recovery may not depend on the intervals matching
-    asym = ('Numbered({ [c EXCEPT !.ackInt = 1000, !.ackIntD = 4000] : c \\in FamAck(3, {1}) } \\cup '
-            '{ [c EXCEPT !.ackInt = 4000, !.ackIntD = 1000] : c \\in FamAck(3, {1}) })')
+    # 7x slower than the sender's EOF timer - longer than the whole cancellation exchange of the other side - and vice versa): recovery may not depend on the intervals matching
+    asym = ('Numbered({ [c EXCEPT !.ackInt = 1000, !.ackIntD = 7000] : c \\in FamAck(3, {1}) } \\cup '
+            '{ [c EXCEPT !.ackInt = 7000, !.ackIntD = 1000] : c \\in FamAck(3, {1}) })')
     r.model("asymK2", asym, K=2, faults=["drop"], invariants=inv, properties=["Completes"], fair=True)
     if not q:
         r.model("freeK2b", "FamAck(3, {1, 3})", K=2, faults=FAULTS + ["delay"], pacing="free", invariants=inv, ticks=[400, 1000], timeout=2400)
